@@ -14,6 +14,7 @@ import (
 	"time"
 
 	"verifsim/core"
+	"verifsim/sched"
 )
 
 func seedFromEnv() uint64 {
@@ -37,7 +38,13 @@ func main() {
 		fmt.Fprintln(os.Stderr, "usage: verifsim run|worker|replay ...")
 		os.Exit(2)
 	}
+	core.IsRaceBuild = sched.RaceBuild
 	switch os.Args[1] {
+	case "exec":
+		if len(os.Args) < 3 {
+			os.Exit(2)
+		}
+		os.Exit(core.ExecMain(os.Args[2]))
 	case "worker":
 		fs := flag.NewFlagSet("worker", flag.ExitOnError)
 		prop := fs.String("prop", "", "")
